@@ -61,7 +61,7 @@ fn run_type<T: Flt>(cfg: &Cfg, rep: &mut Report, rng: &mut Lcg) {
     for shape in &shapes {
         let size: usize = shape.iter().product();
         let exhaustive = size <= 2;
-        let ncases = if exhaustive { al.len().pow(2 * size as u32) } else if cfg.thorough { 300 } else { 80 };
+        let ncases = if exhaustive { al.len().pow(2 * size as u32) } else if cfg.thorough { 6000 } else { 80 };
         for k in 0..ncases {
             let (cp, cq) = if exhaustive { (k % al.len().pow(size as u32), k / al.len().pow(size as u32)) } else { (rng.next() as usize, rng.next() as usize) };
             let mut pv: Vec<f64> = { let mut c = cp; (0..size).map(|_| { let v = al[c % al.len()]; c /= al.len(); v }).collect() };
